@@ -94,6 +94,35 @@ fn svcb(rng: &mut Rng) -> Vec<u8> {
     v
 }
 
+/// one random record: (owner, class, ttl, rtype, rdata), wire forms
+fn gen_record(rng: &mut Rng) -> (Vec<u8>, u16, u32, u16, Vec<u8>) {
+    let owner = name(rng);
+    let class = *rng.pick(&[1u16, 1, 1, 3, 4, 254, 255, 4660]);
+    let ttl = *rng.pick(&[0u32, 1, 3600, 86400, 2147483647]);
+    let (rtype, rdata): (u16, Vec<u8>) = match rng.below(13) {
+        0 | 1 => (16, { let k = 1 + rng.below(3); (0..k).flat_map(|_| cs(rng)).collect() }),
+        2 => (13, [cs(rng), cs(rng)].concat()),
+        3 => (*rng.pick(&[2u16, 5, 12, 39]), name(rng)),
+        4 => (15, [rng.pick(&[0u16, 10, 65535]).to_be_bytes().to_vec(), name(rng)].concat()),
+        5 => (*rng.pick(&[65280u16, 1234]), { let k = rng.below(40) as usize; rng.bytes(k) }),
+        // binary fields in Base32hex / Base64 / Base16: every length residue,
+        // random last octets (the specification abstains on these types; the
+        // round-trip law itself is checked)
+        6 | 7 => (50, { // NSEC3: alg flags iterations salt hash bitmap
+            let salt = { let k = rng.below(6) as usize; rng.bytes(k) };
+            let hmax = if rng.chance(1, 6) { 64 } else { 12 };
+            let hash = { let k = 1 + rng.below(hmax) as usize; rng.bytes(k) };
+            [vec![1, rng.below(2) as u8], (rng.next() as u16).to_be_bytes().to_vec(), vec![salt.len() as u8], salt,
+             vec![hash.len() as u8], hash, vec![0, 1, 0x40]].concat() }),
+        8 => (48, { let k = 1 + rng.below(40) as usize; [vec![1, 1, 3, 13], rng.bytes(k)].concat() }),
+        9 => (61, { let k = 1 + rng.below(40) as usize; rng.bytes(k) }),
+        10 => (43, { let k = 1 + rng.below(40) as usize; [vec![0, 7, 8, 2], rng.bytes(k)].concat() }),
+        // SVCB / HTTPS with list-valued parameters in random (not sorted) order
+        _ => (*rng.pick(&[64u16, 65]), svcb(rng)),
+    };
+    (owner, class, ttl, rtype, rdata)
+}
+
 fn main() {
     quiet_panics();
     let args: Vec<String> = std::env::args().collect();
@@ -105,30 +134,7 @@ fn main() {
     tw.event(json!({"ev": "devs", "open": open_devs()}));
     let (mut eq, mut neq) = (0u64, 0u64);
     for _ in 0..n {
-        let owner = name(&mut rng);
-        let class = *rng.pick(&[1u16, 1, 1, 3, 4, 254, 255, 4660]);
-        let ttl = *rng.pick(&[0u32, 1, 3600, 86400, 2147483647]);
-        let (rtype, rdata): (u16, Vec<u8>) = match rng.below(13) {
-            0 | 1 => (16, { let k = 1 + rng.below(3); (0..k).flat_map(|_| cs(&mut rng)).collect() }),
-            2 => (13, [cs(&mut rng), cs(&mut rng)].concat()),
-            3 => (*rng.pick(&[2u16, 5, 12, 39]), name(&mut rng)),
-            4 => (15, [rng.pick(&[0u16, 10, 65535]).to_be_bytes().to_vec(), name(&mut rng)].concat()),
-            5 => (*rng.pick(&[65280u16, 1234]), { let k = rng.below(40) as usize; rng.bytes(k) }),
-            // binary fields in Base32hex / Base64 / Base16: every length residue,
-            // random last octets (the specification abstains on these types; the
-            // round-trip law itself is checked)
-            6 | 7 => (50, { // NSEC3: alg flags iterations salt hash bitmap
-                let salt = { let k = rng.below(6) as usize; rng.bytes(k) };
-                let hmax = if rng.chance(1, 6) { 64 } else { 12 };
-                let hash = { let k = 1 + rng.below(hmax) as usize; rng.bytes(k) };
-                [vec![1, rng.below(2) as u8], (rng.next() as u16).to_be_bytes().to_vec(), vec![salt.len() as u8], salt,
-                 vec![hash.len() as u8], hash, vec![0, 1, 0x40]].concat() }),
-            8 => (48, { let k = 1 + rng.below(40) as usize; [vec![1, 1, 3, 13], rng.bytes(k)].concat() }),
-            9 => (61, { let k = 1 + rng.below(40) as usize; rng.bytes(k) }),
-            10 => (43, { let k = 1 + rng.below(40) as usize; [vec![0, 7, 8, 2], rng.bytes(k)].concat() }),
-            // SVCB / HTTPS with list-valued parameters in random (not sorted) order
-            _ => (*rng.pick(&[64u16, 65]), svcb(&mut rng)),
-        };
+        let (owner, class, ttl, rtype, rdata) = gen_record(&mut rng);
         let rec = match zf::record_from_wire(&owner, class, ttl, rtype, &rdata) {
             Ok(r) => r,
             Err(e) => { eprintln!("generator produced bad wire: {}", e); std::process::exit(2); }
@@ -145,6 +151,50 @@ fn main() {
                 "text": json_bytes(text.as_bytes()), "res": res, "eq": back == json!("eq")}));
         }
     }
+    // zones: several records in one file, written record by record ("cat",
+    // a kind per record) or through one FormatWriter ("fmt"), read by a reader
+    // set up by a random route and configured at random
+    let has_root = |owner: &[u8], rtype: u16, rdata: &[u8]| owner == [0] || ([2u16, 5, 12, 39].contains(&rtype) && rdata == [0])
+        || (rtype == 15 && rdata.len() == 3);
+    let n_zones = n / 4;
+    let (mut zeq, mut zerr) = (0u64, 0u64);
+    for _ in 0..n_zones {
+        let k = 2 + rng.below(4) as usize;
+        let uniform = rng.chance(1, 2);
+        let mode = if rng.chance(1, 3) { "fmt" } else { "cat" };
+        let fmt_kind = *rng.pick(&["simple", "tabbed", "multiline"]);
+        let mut recs = vec![];
+        let mut wires = vec![];
+        let mut kinds: Vec<&str> = vec![];
+        let mut first_class = 1u16;
+        while recs.len() < k {
+            let (owner, mut class, ttl, rtype, rdata) = gen_record(&mut rng);
+            if recs.is_empty() { first_class = class; } else if uniform { class = first_class; }
+            let rec = match zf::record_from_wire(&owner, class, ttl, rtype, &rdata) {
+                Ok(r) => r,
+                Err(e) => { eprintln!("generator produced bad wire: {}", e); std::process::exit(2); }
+            };
+            // fmt::Display of a root name is a known deviation; keep it to the single-record events
+            let kind = if mode == "fmt" { fmt_kind } else if has_root(&owner, rtype, &rdata) { *rng.pick(&["simple", "tabbed", "multiline"]) }
+                       else { *rng.pick(&["simple", "tabbed", "multiline", "display"]) };
+            kinds.push(kind);
+            wires.push(json!({"owner": json_bytes(&owner), "class": class, "ttl": ttl, "rtype": rtype, "rdata": json_bytes(&rdata)}));
+            recs.push(rec);
+        }
+        let text = if mode == "fmt" { zf::write_zone_fmt(&recs, fmt_kind) }
+                   else { recs.iter().zip(kinds.iter()).map(|(r, k)| zf::write_record(r, k)).collect::<String>() };
+        let origin: &[u8] = if rng.chance(1, 2) { b"\x02ex\x00" } else { b"" };
+        let dclass: Option<u16> = match rng.below(4) { 0 => Some(first_class), 1 => Some(*rng.pick(&[1u16, 3])), _ => None };
+        let allow = rng.chance(1, 2);
+        let ctor = *rng.pick(zf::CTOR_ROUTES);
+        let opts = zf::ReadOpts { origin: if origin.is_empty() { None } else { Some(origin) }, default_class: dclass, allow_invalid: allow };
+        let res = observe(|| zf::read_all_via(ctor, text.as_bytes(), &opts));
+        if res["err"] == json!(true) { zerr += 1; } else { zeq += 1; }
+        tw.event(json!({"ev": "zone", "mode": mode, "kinds": kinds, "ctor": ctor,
+            "cfg": {"origin": json_bytes(origin), "dclass": dclass.map(|c| c as i64).unwrap_or(-1), "allow": allow},
+            "recs": wires, "text": json_bytes(text.as_bytes()), "res": res}));
+    }
     let k = tw.finish();
-    println!("RECORDED {}", json!({"events": k, "records": n, "equal": eq, "not_equal": neq}));
+    println!("RECORDED {}", json!({"events": k, "records": n, "equal": eq, "not_equal": neq,
+                                   "zones": n_zones, "zones_read_through": zeq, "zones_ended_by_error": zerr}));
 }
